@@ -10,9 +10,9 @@ after it.  Same input lexeme → same output bytes as the Go code:
 * `minify.Number` of `/repo/common.go` at precision ≤ 0 on unsigned lexemes — a **private** compact copy
   (`JsNumberDec.number`; property C08 owns the full model of `Number`/`Decimal`);
 * `case *js.DotExpr` / `case *js.IndexExpr`: the `isInteger` test on the previously written chunk before
-  `m.write(dotBytes)`, and the grouped-literal branch `(<literal>).name`;
+  `m.write(dotBytes)` (a parenthesised literal takes the same path);
 * `case *js.UnaryExpr` with `!` on a Decimal/Integer literal (`!123 => !1`);
-* `isFalsy`/`isTruthy` of `js/util.go` on a numeric literal.
+* `isFalsy`/`isTruthy` of `js/util.go` on a numeric literal (`isZeroNumber`).
 
 By contract (dependency `parse/v2/js` lexer, `consumeNumericToken`): the token type of a *valid* numeric
 literal lexeme is determined by its first two characters and by the presence of `.`/`e`/`E`
@@ -150,15 +150,18 @@ def foldBase (base : Nat) (ds : List Char) : Nat := ds.foldl (fun n c => n * bas
 def finishRadix (n : Nat) (suffix : Bool) : List Char :=
   if suffix then decStr n ++ ['n'] else number (decStr n)
 
-/-- `binaryNumber`: more than 63 binary digits are left alone (and the suffix is lost) -/
+/-- the early exit of the three conversions: the notation is kept, separators removed, suffix restored -/
+def keepRadix (r : List Char × Bool) : List Char := if r.2 then r.1 ++ ['n'] else r.1
+
+/-- `binaryNumber`: more than 63 binary digits are left alone -/
 def binaryNumber (b : List Char) : List Char :=
   let r := removeUnderscoresAndSuffix b
-  if r.1.length ≤ 2 || 65 < r.1.length then r.1 else finishRadix (foldBase 2 (r.1.drop 2)) r.2
+  if r.1.length ≤ 2 || 65 < r.1.length then keepRadix r else finishRadix (foldBase 2 (r.1.drop 2)) r.2
 
 /-- `octalNumber`: more than 21 octal digits are left alone -/
 def octalNumber (b : List Char) : List Char :=
   let r := removeUnderscoresAndSuffix b
-  if r.1.length ≤ 2 || 23 < r.1.length then r.1 else finishRadix (foldBase 8 (r.1.drop 2)) r.2
+  if r.1.length ≤ 2 || 23 < r.1.length then keepRadix r else finishRadix (foldBase 8 (r.1.drop 2)) r.2
 
 /-- `hexadecimalNumber`: more than 10 hexadecimal digits, or 10 starting with `E`/`F`, are left alone
     (the decimal form would be longer) -/
@@ -166,7 +169,7 @@ def hexadecimalNumber (b : List Char) : List Char :=
   let r := removeUnderscoresAndSuffix b
   let c2 := (r.1.drop 2).headD '0'
   if r.1.length ≤ 2 || 12 < r.1.length ||
-      (r.1.length == 12 && (('D' < c2 && c2 ≤ 'F') || 'd' < c2)) then r.1
+      (r.1.length == 12 && (('D' < c2 && c2 ≤ 'F') || 'd' < c2)) then keepRadix r
   else finishRadix (foldBase 16 (r.1.drop 2)) r.2
 
 /-! ## token type (lexer by contract) and the literal printer -/
@@ -220,33 +223,61 @@ def dotsAfter (prev : List Char) : List Char := if isIntegerChunk prev then ['.'
 def memberDot (s name : List Char) : Option (List Char) :=
   (minifyNumLit s).map (fun t => t ++ dotsAfter t ++ name)
 
-/-- `(<literal>).name`: the grouped-literal branch of `case *js.DotExpr` — a Decimal token goes through
-    `minify.Number` *with its separators* and gets one dot, an Integer token is written as it is and
-    gets two dots; the other token types take the general path -/
-def groupDot (s name : List Char) : Option (List Char) :=
-  match tokOf s with
-  | .reject => none
-  | .decimal => some (number s ++ '.' :: name)
-  | .integer => some (s ++ '.' :: '.' :: name)
-  | _ => memberDot s name
+/-- `(<literal>).name` and `(<literal>)["name"]`: `case *js.GroupExpr` drops the parentheses of a literal,
+    so the member access is printed exactly as without them -/
+def groupDot (s name : List Char) : Option (List Char) := memberDot s name
 
-/-- `!<literal>` (`case *js.UnaryExpr`, `!123 => !1`): for a Decimal/Integer token the raw lexeme minus a
-    final `n` goes through `minify.Number`; `0` gives `!0`, anything else `!1` -/
+/-! ## truthiness of a numeric literal (`isZeroNumber` of `js/util.go`) -/
+
+/-- by contract (Go `strconv.ParseFloat(·, 64)` on a decimal lexeme without separators): the result is
+    `0` exactly when the mathematical value `m·10^e` is at most `2^-1075` (half of the smallest
+    denormal; the tie rounds to even, i.e. to 0).  `m`, `e` are read off the lexeme; exponent texts
+    of any length are accepted (ParseFloat saturates instead of failing on underflow). -/
+def parseFloatIsZero (s : List Char) : Bool :=
+  let mant := s.takeWhile JsNumberDec.notE
+  let ex : Int :=
+    match s.dropWhile JsNumberDec.notE with
+    | [] => 0
+    | _ :: r =>
+      let sd := JsNumberDec.signSplit r
+      let v : Int := JsNumberDec.natOf (sd.2.takeWhile Char.isDigit)
+      if sd.1 then -v else v
+  let ip := mant.takeWhile JsNumberDec.notDot
+  let fp := (mant.dropWhile JsNumberDec.notDot).drop 1
+  let m := JsNumberDec.natOf (ip ++ fp)
+  let e : Int := ex - fp.length
+  if m == 0 then true else
+  let dg : Int := (Nat.toDigits 10 m).length
+  if e + dg < -330 then true
+  else if -300 < e + dg then false
+  else decide (m * 2 ^ 1075 ≤ 10 ^ (-e).toNat)
+
+/-- the scan of `isZeroNumber`: `d` the whole literal, `decimal` = no radix prefix -/
+def zeroScan (decimal : Bool) (d : List Char) : List Char → Bool
+  | [] => true
+  | c :: r =>
+    if c == 'n' || (decimal && (c == 'e' || c == 'E')) then true
+    else if c != '0' && c != '.' && c != '_' then
+      (if decimal && d.getLast? != some 'n' then parseFloatIsZero (d.filter (· != '_')) else false)
+    else zeroScan decimal d r
+
+/-- `isZeroNumber`: the literal evaluates to `0` or `0n` -/
+def isZeroNumber (d : List Char) : Bool :=
+  match d with
+  | '0' :: c :: r =>
+    if c == 'x' || c == 'X' || c == 'b' || c == 'B' || c == 'o' || c == 'O' then zeroScan false d r
+    else zeroScan true d d
+  | _ => zeroScan true d d
+
+/-- `!<literal>` (`case *js.UnaryExpr`, `!123 => !1`): for a Decimal/Integer token `!0` or `!1` by
+    `isZeroNumber`; the other token types print `!` and the literal -/
 def notLit (s : List Char) : Option (List Char) :=
   match tokOf s with
   | .reject => none
-  | .decimal | .integer =>
-    let d := match s.getLast? with | some 'n' => s.dropLast | _ => s
-    some (if number d == ['0'] then ['!', '0'] else ['!', '1'])
+  | .decimal | .integer => some (if isZeroNumber s then ['!', '0'] else ['!', '1'])
   | _ => some ('!' :: printNumLit s)
 
-/-- `isFalsy` of `js/util.go` on a numeric literal: scan up to `e`/`E`/`n`; any character other than
-    `0 . x X b B o O` makes it truthy -/
-def falsyScan : List Char → Bool
-  | [] => true
-  | c :: r =>
-    if c == 'e' || c == 'E' || c == 'n' then true
-    else if c != '0' && c != '.' && c != 'x' && c != 'X' && c != 'b' && c != 'B' && c != 'o' && c != 'O' then false
-    else falsyScan r
+/-- `isFalsy` of `js/util.go` on a numeric literal token -/
+def falsyLit (s : List Char) : Bool := isZeroNumber s
 
 end Verif.Model.JsNumber
